@@ -66,3 +66,22 @@ pub unsafe fn alloc_size_classes(layout: std::alloc::Layout) -> *mut u8 {
 /// Blocks are never returned (nothing observes that; use-after-free is outside every property
 /// here).  Needed because the size recorded for a block is its size class, not the requested size.
 pub unsafe fn dealloc_noop(_ptr: std::ptr::NonNull<u8>, _layout: std::alloc::Layout) {}
+
+/// Growth of a heap buffer as "take a block of the next size class, copy the old block, leak it".
+/// Used by the harnesses whose *subject* is a bucket growing beyond its first allocation: the new
+/// block has a constant size (no object of symbolic size) and the copy has a constant length.
+pub unsafe fn realloc_size_classes(ptr: std::ptr::NonNull<u8>, layout: std::alloc::Layout, new_size: usize) -> *mut u8 {
+   use std::alloc::Layout;
+   let new = alloc_size_classes(Layout::from_size_align_unchecked(new_size, layout.align()));
+   let old = layout.size();
+   if old <= 8 {
+      std::ptr::copy_nonoverlapping(ptr.as_ptr(), new, 8);
+   } else if old <= 32 {
+      std::ptr::copy_nonoverlapping(ptr.as_ptr(), new, 32);
+   } else if old <= 128 {
+      std::ptr::copy_nonoverlapping(ptr.as_ptr(), new, 128);
+   } else {
+      panic!("capacity of the table model exceeded (a Vec grew beyond 128 bytes twice)")
+   }
+   new
+}
